@@ -4,6 +4,7 @@ import random
 import numpy as np
 
 from .. import enc
+from ..simutil import KRandom
 
 ID = 'C15'
 TECHNIQUE = 'runtime monitoring: round-trip and direct-definition oracles over seeded shapes, strings and dtypes; exhaustive alias table'
@@ -94,7 +95,7 @@ def one(ctx, rng, nrng):
         pats = rng.choice([1, 2, 3, 7, 8, 9, 15, 16, 17, 31, 33, 63, 64, 65, 70, rng.randint(1, 70)])
         shape = tuple(rng.randint(1, 6) for _ in range(rank - 1)) + (pats,)
         a = nrng.integers(0, 8, size=shape, dtype=np.uint8)
-        case = {'kind': 'bp', 'shape': list(shape), 'a': a.tolist()}
+        case = {'rngkey': getattr(rng, 'key', None), 'kind': 'bp', 'shape': list(shape), 'a': a.tolist()}
         with ctx.guard('bp-roundtrip', case):
             bp = L.mv_to_bp(a)
             if rank == 1:
@@ -130,7 +131,7 @@ def one(ctx, rng, nrng):
         use_alias = rng.random() < 0.5
         vals = [[rng.randrange(8) for _ in range(S)] for _ in range(P)]
         strs = [''.join(rng.choice([x for x in ALIASES[v] if isinstance(x, str)]) if use_alias else enc.CHARS[v] for v in pat) for pat in vals]
-        case = {'kind': kind, 'strings': strs}
+        case = {'rngkey': getattr(rng, 'key', None), 'kind': kind, 'strings': strs}
         exp = np.array(vals, dtype=np.uint8).T if P > 1 else np.array(vals[0], dtype=np.uint8)   # (S, P) or (S,)
         with ctx.guard('mvarray-strings', case):
             if kind == 'strings':
@@ -155,7 +156,7 @@ def one(ctx, rng, nrng):
         vals = [[rng.randrange(8) for _ in range(S)] for _ in range(P)]
         pool = {v: [x for x in ALIASES[v]] for v in ALIASES}
         lists = [[rng.choice(pool[v]) for v in pat] for pat in vals]
-        case = {'kind': 'lists', 'lists': repr(lists)}
+        case = {'rngkey': getattr(rng, 'key', None), 'kind': 'lists', 'lists': repr(lists)}
         exp = np.array(vals, dtype=np.uint8).T
         with ctx.guard('mvarray-lists', case):
             got = L.mvarray(*lists)
@@ -166,7 +167,7 @@ def one(ctx, rng, nrng):
     elif kind == 'mvstr':
         if rng.random() < 0.4:
             a = nrng.integers(0, 8, size=(rng.randint(1, 30),), dtype=np.uint8)
-            case = {'kind': 'mvstr', 'a': a.tolist()}
+            case = {'rngkey': getattr(rng, 'key', None), 'kind': 'mvstr', 'a': a.tolist()}
             with ctx.guard('mv_str', case):
                 s = L.mv_str(a)
                 if s != enc.v2s(a):
@@ -177,7 +178,7 @@ def one(ctx, rng, nrng):
             S, P = rng.randint(2, 8), rng.randint(2, 12)
             a = nrng.integers(0, 8, size=(S, P), dtype=np.uint8)
             delim = rng.choice(['\n', ' ', ',', '|'])
-            case = {'kind': 'mvstr', 'a': a.tolist(), 'delim': delim}
+            case = {'rngkey': getattr(rng, 'key', None), 'kind': 'mvstr', 'a': a.tolist(), 'delim': delim}
             with ctx.guard('mv_str', case):
                 s = L.mv_str(a, delim=delim)
                 exp = delim.join(enc.v2s(a[:, p]) for p in range(P))
@@ -200,7 +201,7 @@ def one(ctx, rng, nrng):
             if rng.random() < 0.5:
                 flat[i] = edge[i]
         bits = 8 * dt.itemsize
-        case = {'kind': 'pack', 'dtype': dt.name, 'shape': list(shape), 'a': a.tolist()}
+        case = {'rngkey': getattr(rng, 'key', None), 'kind': 'pack', 'dtype': dt.name, 'shape': list(shape), 'a': a.tolist()}
         with ctx.guard('pack-unpack', case):
             u = L.unpackbits(a)
             if u.shape != shape + (bits,):
@@ -240,7 +241,7 @@ def one(ctx, rng, nrng):
         rank = rng.randint(1, 3)
         shape = tuple(rng.randint(1, 9) for _ in range(rank))
         a = nrng.integers(0, 256, size=shape, dtype=np.uint8)
-        case = {'kind': 'popcount', 'a': a.tolist()}
+        case = {'rngkey': getattr(rng, 'key', None), 'kind': 'popcount', 'a': a.tolist()}
         with ctx.guard('popcount', case):
             got = kyupy.popcount(a)
             exp = sum(bin(int(v)).count('1') for v in a.flat)
@@ -254,16 +255,15 @@ def run(spec, ctx):
     if spec.get('table'):
         table(ctx)
         return
-    rng = random.Random(f'C15/{spec["seed"]}/{spec["shard"]}')
-    nrng = np.random.default_rng([spec['seed'], spec['shard'], 15])
-    for _ in range(spec['n']):
-        one(ctx, rng, nrng)
+    for i in range(spec['n']):
+        rng = KRandom(f'C15/{spec["seed"]}/{spec["shard"]}/{i}')
+        one(ctx, rng, np.random.default_rng(rng.getrandbits(63)))
 
 
 def replay(case, ctx):
     # replays re-run the whole deterministic table plus a fixed-seed sample containing the case's kind
-    table(ctx)
-    rng = random.Random('C15/replay')
-    nrng = np.random.default_rng(15)
-    for _ in range(400):
-        one(ctx, rng, nrng)
+    if case.get('rngkey'):
+        rng = KRandom(case['rngkey'])
+        one(ctx, rng, np.random.default_rng(rng.getrandbits(63)))
+    else:
+        table(ctx)
